@@ -41,6 +41,10 @@ PIECES = (
     ("x", "v"), ("n", "v"),
 )
 NUM_PIECES = (("a", "t"), ("%", "t"), ("x", "v"), ("num", "v"))
+# whitespace family: trim_blocks / lstrip_blocks act on a body that starts with a newline or ends with an
+# indented line before {% pluralize %} / {% endtrans %}
+WS_PIECES = (("\n", "t"), ("a", "t"), ("%", "t"), ("x", "v"), ("\n  ", "t"))
+WS_OPTS = ((False, False), (True, False), (False, True), (True, True))  # trim_blocks, lstrip_blocks
 
 # header key -> (source, declared variables in order [(name, value key)], trimmed modifier)
 HEADERS = {
@@ -74,20 +78,24 @@ def render_ctx(c):
 
 
 class Case:
-    __slots__ = ("ctx", "hkey", "headers", "plural", "sing", "plur", "pieces", "pvar")
+    __slots__ = ("ctx", "hkey", "headers", "plural", "sing", "plur", "pieces", "pvar", "fam", "ws")
 
-    def __init__(self, ctx, hkey, plural, sing, plur, num_family=False):
+    def __init__(self, ctx, hkey, plural, sing, plur, num_family=False, ws=(False, False)):
+        # num_family: False (standard alphabet), True ({{ num }} family) or "ws" (whitespace family)
+        self.fam = num_family
+        self.ws = tuple(ws)
+        num_family = num_family is True
         self.ctx = ctx
         self.hkey = hkey
         self.headers = NUM_HEADERS if num_family else HEADERS
-        self.pieces = NUM_PIECES if num_family else PIECES
+        self.pieces = NUM_PIECES if num_family else (WS_PIECES if self.fam == "ws" else PIECES)
         self.plural = plural
         self.sing = tuple(sing)
         self.plur = tuple(plur) if plur is not None else None
         self.pvar = "num" if num_family else "n"
 
     def key(self):
-        return (self.ctx, self.hkey, self.plural, self.sing, self.plur, self.pvar == "num")
+        return (self.ctx, self.hkey, self.plural, self.sing, self.plur, self.fam, self.ws)
 
     def body_src(self, idxs):
         return "".join(("{{ %s }}" % s) if k == "v" else s for s, k in (self.pieces[i] for i in idxs))
@@ -148,6 +156,17 @@ def model(case: Case, cfg, c):
     if trimmed is None:
         trimmed = policy
     skeleton = "".join(("\0%s\0" % s) if k == "v" else s for s, k in (case.pieces[i] for i in idxs))
+    trim_blocks, lstrip_blocks = case.ws
+    line_start = False
+    if trim_blocks and skeleton.startswith("\n"):
+        # docs (Whitespace Control): "the first newline after a template tag is removed automatically"
+        skeleton, line_start = skeleton[1:], True
+    if lstrip_blocks:
+        # docs: "strip tabs and spaces from the beginning of a line to the start of a block. (Nothing will be
+        # stripped if there are other characters before the start of the block.)"
+        body = skeleton.rstrip(" \t")
+        if body != skeleton and (body.endswith("\n") or (body == "" and line_start)):
+            skeleton = body
     if trimmed:
         # docs: replace all linebreaks and the whitespace surrounding them with a single space and remove
         # leading and trailing whitespace
@@ -167,11 +186,12 @@ def model(case: Case, cfg, c):
 # --------------------------------------------------------------------------- running the real thing
 
 
-def make_env(cfg, rec):
+def make_env(cfg, rec, ws=(False, False)):
     import jinja2
 
     newstyle, autoescape, policy = cfg
-    env = jinja2.Environment(extensions=["jinja2.ext.i18n"], autoescape=autoescape)
+    env = jinja2.Environment(extensions=["jinja2.ext.i18n"], autoescape=autoescape, trim_blocks=ws[0],
+                             lstrip_blocks=ws[1])
     env.policies["ext.i18n.trimmed"] = policy
 
     def gettext(s):
@@ -203,7 +223,7 @@ def norm_msg(func, args):
     return tuple(a if isinstance(a, str) else None for a in tuple(args)[:NSTR[func]])
 
 
-def extracted_sets(src, cfg, env):
+def extracted_sets(src, cfg, env, ws=(False, False)):
     """normalised (function, message tuple) sets from both extraction interfaces."""
     import jinja2.ext as ext
 
@@ -217,19 +237,20 @@ def extracted_sets(src, cfg, env):
 
     a = {(real(f), norm(f, m)) for _, f, m in ext.extract_from_ast(env.parse(src), ext.GETTEXT_FUNCTIONS)}
     opts = {"trimmed": "true" if policy else "false", "newstyle_gettext": "true" if newstyle else "false",
-            "silent": "false"}
+            "silent": "false", "trim_blocks": "true" if ws[0] else "false",
+            "lstrip_blocks": "true" if ws[1] else "false"}
     b = {(real(f), norm(f, m)) for _, f, m, _ in ext.babel_extract(io.BytesIO(src.encode("utf-8")), ext.GETTEXT_FUNCTIONS,
                                                          [], opts)}
     return a, b
 
 
-def evaluate(src, expect, cfg, extract=True):
+def evaluate(src, expect, cfg, extract=True, ws=(False, False)):
     """expect: function c -> model result.  Returns list of (kind, message) failures and outcome tags."""
     import jinja2
 
     fails, tags = [], []
     rec: list = []
-    env = make_env(cfg, rec)
+    env = make_env(cfg, rec, ws)
     m0 = expect(COUNTS[0])
     try:
         with core.alarm(10):
@@ -272,7 +293,7 @@ def evaluate(src, expect, cfg, extract=True):
         tags.append("form:" + ("same" if out == expect(1)[1] else "other"))
     if extract:
         try:
-            a, b = extracted_sets(src, cfg, env)
+            a, b = extracted_sets(src, cfg, env, ws)
         except Exception as e:  # noqa: BLE001
             fails.append(("extract-error:" + type(e).__name__, str(e)))
             return fails, tags
@@ -311,6 +332,10 @@ def features(case: Case):
         f.append("pluralize")
     if case.ctx:
         f.append("context")
+    if case.ws[0]:
+        f.append("trim_blocks")
+    if case.ws[1]:
+        f.append("lstrip_blocks")
     used = [case.pieces[i][0] for i in case.sing + (case.plur or ()) if case.pieces[i][1] == "v"]
     if "num" in used or any(n == "num" for n, _ in case.headers[case.hkey][1]):
         f.append("num")
@@ -318,26 +343,30 @@ def features(case: Case):
 
 
 def check_case(case: Case, cfg, extract=True):
-    return evaluate(case.source(), lambda c: model(case, cfg, c), cfg, extract)
+    return evaluate(case.source(), lambda c: model(case, cfg, c), cfg, extract, case.ws)
 
 
 def simplifications(case: Case):
-    nf = case.pvar == "num"
+    nf = case.fam
+    if case.ws != (False, False):
+        for ws in ((False, False), (case.ws[0], False), (False, case.ws[1])):
+            if ws != case.ws:
+                yield Case(case.ctx, case.hkey, case.plural, case.sing, case.plur, nf, ws)
     if case.ctx:
-        yield Case(False, case.hkey, case.plural, case.sing, case.plur, nf)
+        yield Case(False, case.hkey, case.plural, case.sing, case.plur, nf, case.ws)
     if case.plural != "none":
-        yield Case(case.ctx, case.hkey, "none", case.sing, None, nf)
-        yield Case(case.ctx, case.hkey, "none", case.plur, None, nf)
+        yield Case(case.ctx, case.hkey, "none", case.sing, None, nf, case.ws)
+        yield Case(case.ctx, case.hkey, "none", case.plur, None, nf, case.ws)
         if case.plural == "explicit":
-            yield Case(case.ctx, case.hkey, "implicit", case.sing, case.plur, nf)
+            yield Case(case.ctx, case.hkey, "implicit", case.sing, case.plur, nf, case.ws)
     if case.hkey != "none":
-        yield Case(case.ctx, "none", case.plural, case.sing, case.plur, nf)
+        yield Case(case.ctx, "none", case.plural, case.sing, case.plur, nf, case.ws)
         order = list(case.headers)  # strictly simpler headers only (well-founded: no cycles)
         for hk in ("x", "n", "num"):
             if hk in case.headers and order.index(hk) < order.index(case.hkey):
-                yield Case(case.ctx, hk, case.plural, case.sing, case.plur, nf)
+                yield Case(case.ctx, hk, case.plural, case.sing, case.plur, nf, case.ws)
     for i in range(len(case.sing)):
-        yield Case(case.ctx, case.hkey, case.plural, case.sing[:i] + case.sing[i + 1:], case.plur, nf)
+        yield Case(case.ctx, case.hkey, case.plural, case.sing[:i] + case.sing[i + 1:], case.plur, nf, case.ws)
     if case.plur:
         for i in range(len(case.plur)):
             yield Case(case.ctx, case.hkey, case.plural, case.sing, case.plur[:i] + case.plur[i + 1:], nf)
@@ -395,10 +424,10 @@ def replay_source(key, cfg, _unused=None):
     case = Case(*key)
     cfg = tuple(cfg)
     src = case.source()
-    print("config:", cfg_name(cfg))
+    print("config:", cfg_name(cfg), "trim_blocks=%s lstrip_blocks=%s" % case.ws)
     print("source:", repr(src))
     rec = []
-    env = make_env(cfg, rec)
+    env = make_env(cfg, rec, case.ws)
     try:
         t = env.from_string(src)
     except Exception as e:  # noqa: BLE001
@@ -414,7 +443,7 @@ def replay_source(key, cfg, _unused=None):
         print("count=%d rendered %r" % (c, out))
         print("        expected %r" % (model(case, cfg, c)[1:2],))
         print("        gettext calls", rec)
-    print("extract_from_ast / babel_extract:", extracted_sets(src, cfg, env))
+    print("extract_from_ast / babel_extract:", extracted_sets(src, cfg, env, case.ws))
 
 
 # --------------------------------------------------------------------------- direct gettext calls
